@@ -156,16 +156,9 @@ func LoadKnown(path string) ([]Known, error) {
 		default:
 			continue
 		}
-		for _, f := range strings.Fields(line) {
-			switch {
-			case strings.HasPrefix(f, "property="):
-				k.Property = f[len("property="):]
-			case strings.HasPrefix(f, "rule="):
-				k.Rule = f[len("rule="):]
-			case strings.HasPrefix(f, "site="):
-				k.Site = f[len("site="):]
-			}
-		}
+		k.Property = kvField(line, "property")
+		k.Rule = kvField(line, "rule")
+		k.Site = kvField(line, "site")
 		out = append(out, k)
 	}
 	return out, sc.Err()
@@ -324,4 +317,22 @@ func Summarise(p *Program, results []*RuleResult, out Outcome, explanation strin
 // SortObs orders obligations by key for stable output.
 func SortObs(obs []*Ob) {
 	sort.SliceStable(obs, func(i, j int) bool { return obs[i].Key < obs[j].Key })
+}
+
+// kvField extracts name=value or name="quoted value" from a line.
+func kvField(line, name string) string {
+	i := strings.Index(line, " "+name+"=")
+	if i < 0 {
+		return ""
+	}
+	rest := line[i+len(name)+2:]
+	if strings.HasPrefix(rest, "\"") {
+		if j := strings.Index(rest[1:], "\""); j >= 0 {
+			return rest[1 : 1+j]
+		}
+	}
+	if j := strings.IndexByte(rest, ' '); j >= 0 {
+		return rest[:j]
+	}
+	return rest
 }
